@@ -16,6 +16,12 @@ build_e1() {
   local name="$1"; shift
   build_instr
   rm -rf "$WORK/instr/$name"; mkdir -p "$WORK/instr/$name"
-  "$WORK/bin/instr" -repo "$REPO" -work "$WORK/instr/$name" -overlay "$WORK/$name.overlay.json" "$@" || exit 2
+  local subst=()
+  if [ -n "$VERIF_SUBST" ]; then
+    # VERIF_SUBST="rel/path.go=/abs/mutated.go,..." : mutation testing without touching $REPO
+    IFS=',' read -ra _ss <<< "$VERIF_SUBST"
+    for s in "${_ss[@]}"; do subst+=(-subst "$s"); done
+  fi
+  "$WORK/bin/instr" -repo "$REPO" -work "$WORK/instr/$name" -overlay "$WORK/$name.overlay.json" "${subst[@]}" "$@" || exit 2
   (cd "$VERIF_ROOT" && go build -tags verif -overlay "$WORK/$name.overlay.json" -o "$WORK/bin/$name" "./checks/$name") || exit 2
 }
